@@ -506,6 +506,11 @@ STATEMENTS = {
 	'T1_wf_py / T1_wf_gram': 'WFRules holds for the translated py_rules() and gram_rules() (kernel-decided over the whole tables)',
 	'T2_all_or_error': 'parse returns a tree only if the match consumed every token (steps = #tokens, ghost trace = the input, leaves = the named ones)',
 	'T2_else_syntax': 'when the matcher finishes without consuming everything and the cause token\'s line indexes the source, the outcome is Errors.Syntax',
+	'T2_else_syntax_guarded': 'the same with a guard on the input only: at least one token and every begin_line a line of the source or -1 (what the tokenizer produces) — the summary cannot fail',
+	'group_ladders_py': 'comp > calc_sum > calc_mul (over unary) and comp_or > comp_and (over comp_not) are ladders of the generated table (kernel-decided)',
+	'group_partial_arith': 'whatever the engine matches for comp decomposes into unary-operand and operator matches covering exactly the consumed tokens, and Prec.parse with the level order comparison < additive < multiplicative reads that same abstract token list into the very expression the flat chains stand for (left-nested per level)',
+	'group_partial_bool': 'the same for comp_or: or < and over comp_not operands',
+	'group_levels_cpython': 'that level order is CPython\'s: or < and < comparisons < + - < * / % in Ladder.pyTable (the table C02 proves equal to CPython\'s grammar)',
 	'T3_yield': 'the named-terminal leaves of a successful match, in order, are exactly the consumed tokens that were matched by named terminal rules; the consumed tokens are exactly the span, in source order',
 	'T4_chain': 'a match of a ladder-shaped pattern (N op)* N yields the flat chain n_k o_k … o_1 n_0 in source order, each item a successful match of N resp. op laid end to end over the consumed span',
 	'T4_ladders_py': 'comp_or, comp_and, comp, calc_sum, calc_mul of the generated py table are exactly ladder rules (kernel-decided), chained level by level',
@@ -526,7 +531,7 @@ def run(ctx: Ctx) -> int:
 		partial={
 			'proved': 'termination for well-formed rule sets incl. both shipped sets, all-or-error, yield/order of leaves, flat chains of ladder rules, error-line range under the source-map guard',
 			'correspondence_only': 'the Lean matcher equals SyntaxParser on py_rules()/random rule sets; regexp terminals enter as a classification table evaluated by the real re',
-			'search_only': 'agreement with CPython ast (ordered choice never prefers a wrong alternative on py_gram.lark; the Prec-based C11.group_partial of the design is not proved), acceptance of every derivable sentence',
+			'search_only': 'agreement with CPython ast (ordered choice never prefers a wrong alternative on py_gram.lark; group_partial covers the binary ladders only: prefix levels not / unary minus, ternary, lambda, walrus, attribute/call/index chains and that the engine ACCEPTS every such expression are search-only), acceptance of every derivable sentence',
 		},
 		assumptions=[
 			'sentences are bounded (≤ ~110 tokens, bracket nesting ≤ 3): the engine is exponential in bracket nesting and recursive (RecursionError beyond the bound is outside the quantifier)',
